@@ -1,4 +1,4 @@
-import ComposeVerif.Lemmas.Name
+import ComposeVerif.Lemmas.NameDotenv
 /-!
 # C17 — boundaries of the property, proved on concrete witnesses
 
@@ -10,14 +10,23 @@ Neither is a defect with respect to the property text.
 namespace CV.Name.Neg
 open CV CV.Name
 
+def fa : List (Str × Str) := [("V".toList, "a".toList), ("X".toList, "1".toList)]
+def fb : List (Str × Str) := [("X".toList, "2".toList), ("S".toList, "$X".toList)]
+
 def w : World where
-  dir := "p".toList
+  dirs := [{ name := "p".toList, files := [("c".toList, [none])] }]
+  given := [{ dir := 0, file := some "c".toList }]
   os := strs ["V=o"]
-  files := [[none]]
-  envFiles := [("a".toList, .file [("V".toList, "a".toList), ("X".toList, "1".toList)]),
-               ("b".toList, .file [("X".toList, "2".toList), ("S".toList, "$X".toList)])]
-  dotEnv := none
+  envFiles := [("a".toList, .file (renderSimple fa)), ("b".toList, .file (renderSimple fb))]
   probe := []
+
+theorem la : lookupFile w (.named "a".toList) = some (.file (renderSimple fa)) := by decide
+theorem lb : lookupFile w (.named "b".toList) = some (.file (renderSimple fb)) := by decide
+
+/-- unfold a concrete run down to the grammar evaluator -/
+macro "eval_run" : tactic => `(tactic|
+  (simp only [run, runOpts, applyOpt, withEnvFiles, strs, List.map, getEnvFromFile, la, lb,
+     parseFile_renderSimple _ fa (by decide), parseFile_renderSimple _ fb (by decide)]))
 
 def varOf (k : String) (r : Except Err Loaded) : Option String :=
   r.toOption.bind (fun l => (l.env.get k.toList).map String.ofList)
@@ -29,6 +38,7 @@ theorem os_over_dotenv_in_any_order_is_false :
   intro h
   have := h [.withEnvFiles (strs ["a"]), .withDotEnv, .withOsEnv] (by decide)
   revert this
+  eval_run
   decide
 
 /-- a reference in a later env file does NOT see the later file's own override first: `$X` on a line of `b`
@@ -36,6 +46,7 @@ theorem os_over_dotenv_in_any_order_is_false :
     earlier lines — `dotenv_refs_above`), although the final value of `X` is 2 -/
 theorem ref_sees_own_file_first_is_false :
     ¬ (varOf "S" (run w [.withEnvFiles (strs ["a", "b"]), .withDotEnv]) = varOf "X" (run w [.withEnvFiles (strs ["a", "b"]), .withDotEnv])) := by
+  eval_run
   decide
 
 end CV.Name.Neg
